@@ -227,6 +227,53 @@ def handleExec (ds : DS) (j : Json) : IO DS := do
         ("ret", hexOf r.ret), ("logs", toString mLogs.length), ("storage", storageStr mStorage)]).compress)
   return ds
 
+/-- Profile "create": the facts that hold by construction of the generated factory program (CREATE is outside the
+    interpreter model) against what the real interpreter did. -/
+def handleExpect (ds : DS) (j : Json) : IO DS := do
+  let e := J.get j "expect"
+  let res := J.get j "res"
+  let id := toString (J.intOf j "id")
+  let derived := J.strOf e "derived"
+  let created := J.boolOf e "created"
+  let post := J.arrOf res "post"
+  let acct := post.find? (fun a => J.strOf a "addr" == derived)
+  let factory := post.find? (fun a => J.strOf a "addr" == J.strOf j "callee")
+  let ret := J.strOf res "ret"
+  let word0 := hexNat ((ret.take 64).toString)
+  let word1 := hexNat ((ret.drop 64).toString)
+  let note := J.strOf j "note"
+  let mut ds := stat ds "vm.exec"
+  ds := stat ds ("create." ++ J.strOf e "init" ++ (if J.boolOf e "call_first" then ".afterCall" else ""))
+  if J.strOf res "outcome" != "ok" then
+    ds ← finding ds "monitor" "C16" "create:factory_outcome" id s!"{note}: the factory ended with {J.strOf res "outcome"} (a failed creation pushes 0 and execution goes on)"
+    return ds
+  if created then
+    match acct with
+    | none => ds ← finding ds "monitor" "C16" "create:deploys_account" id s!"{note}: no account at the derived address {derived} after a successful creation"
+    | some a =>
+      if J.strOf a "code" != J.strOf e "runtime" then
+        ds ← finding ds "monitor" "C16" "create:deploys_code" id s!"{note}: deployed code {J.strOf a "code"}, the init code returns {J.strOf e "runtime"}"
+      if J.intOf a "balance" != J.intOf e "value" then
+        ds ← finding ds "monitor" "C16,C18" "create:value_transferred" id s!"{note}: new contract holds {J.intOf a "balance"}, endowed with {J.intOf e "value"}"
+    if word0 != hexNat derived then
+      ds ← finding ds "monitor" "C16" "create:pushes_address" id s!"{note}: CREATE pushed {natHex word0}, the new address is {derived}"
+  else
+    -- C18: a deployment that reverts or aborts leaves nothing behind, even when the creating call succeeds
+    match acct with
+    | some a => ds ← finding ds "monitor" "C18,C16" "create:failed_deployment_leaves_account" id s!"{note}: an account exists at {derived} after the creation failed (code '{J.strOf a "code"}', balance {J.intOf a "balance"}, storage {(J.get a "storage").compress})"
+    | none => pure ()
+    if word0 != 0 then
+      ds ← finding ds "monitor" "C16" "create:pushes_address" id s!"{note}: CREATE pushed {natHex word0} although the creation failed"
+  match factory with
+  | some f =>
+    if J.intOf f "balance" != J.intOf e "factory_balance" then
+      ds ← finding ds "monitor" "C18,C16" "create:value_transferred" id s!"{note}: the factory holds {J.intOf f "balance"}, expected {J.intOf e "factory_balance"}"
+  | none => ds ← finding ds "monitor" "C16" "create:factory_outcome" id s!"{note}: the factory account disappeared"
+  -- EIP-211: the return-data buffer after CREATE is empty on success and holds the revert data on failure
+  if word1 != (J.intOf e "returndatasize").toNat then
+    ds ← finding ds "monitor" "C16" "create:return_data_buffer" id s!"{note}: RETURNDATASIZE after CREATE is {word1}, the specification gives {J.intOf e "returndatasize"}"
+  return ds
+
 def handleKhash (ds : DS) (j : Json) : IO DS := do
   let ds := stat ds "keccak.checked"
   let got := hexOf (Keccak.keccak256 (unhex (J.strOf j "data")))
@@ -244,7 +291,7 @@ partial def loop (hIn : IO.FS.Stream) (ds : DS) : IO DS := do
   | .ok j =>
     let ds := { ds with line := ds.line + 1 }
     let ds ← match J.strOf j "k" with
-      | "exec" => handleExec ds j
+      | "exec" => if J.has j "expect" then handleExpect ds j else handleExec ds j
       | "khash" => handleKhash ds j
       | _ => pure ds
     loop hIn ds
